@@ -127,7 +127,7 @@ fn main() {
                     let em = match stream {
                         "apply" => statestream::Emphasis { mutate: 300, pool_ops: 6, stake_ops: 8, mint_ops: 8, batches: 0, blocks: 2, chain_ops: false, twins: 2, epoch_edges: 0, faucets: 8, tip_edges: 0 },
                         "cov" => statestream::Emphasis { mutate: 250, pool_ops: 1, stake_ops: 1, mint_ops: 0, batches: 4, blocks: 3, chain_ops: false, twins: 6, epoch_edges: 0, faucets: 8, tip_edges: 0 },
-                        "stake" => statestream::Emphasis { mutate: 100, pool_ops: 1, stake_ops: 60, mint_ops: 0, batches: 3, blocks: 3, chain_ops: false, twins: 2, epoch_edges: 6, faucets: 8, tip_edges: 0 },
+                        "stake" => statestream::Emphasis { mutate: 100, pool_ops: 1, stake_ops: 60, mint_ops: 0, batches: 3, blocks: 3, chain_ops: true, twins: 2, epoch_edges: 6, faucets: 8, tip_edges: 0 },
                         "faucet" => statestream::Emphasis { mutate: 150, pool_ops: 2, stake_ops: 1, mint_ops: 0, batches: 3, blocks: 3, chain_ops: false, twins: 2, epoch_edges: 0, faucets: 60, tip_edges: 0 },
                         "activation" => statestream::Emphasis { mutate: 100, pool_ops: 6, stake_ops: 4, mint_ops: 2, batches: 2, blocks: 4, chain_ops: true, twins: 2, epoch_edges: 0, faucets: 30, tip_edges: 7 },
                         "hostile" => statestream::Emphasis { mutate: 800, pool_ops: 12, stake_ops: 6, mint_ops: 6, batches: 2, blocks: 3, chain_ops: false, twins: 2, epoch_edges: 0, faucets: 8, tip_edges: 0 },
